@@ -48,6 +48,9 @@ struct SinkScript {
     zero_at: Option<usize>,
     /// return Interrupted before every j-th call (each call is interrupted at most once)
     interrupt_every: Option<usize>,
+    /// the sink implements write_vectored itself (like a pipe / socket / File) and accepts bytes
+    /// across the buffers of one call up to its per-call limit
+    vectored: bool,
 }
 
 struct Sink {
@@ -102,7 +105,7 @@ impl Write for Sink {
         let mut n = match self.script.accept {
             Accept::All => buf.len(),
             Accept::Max(k) => buf.len().min(k),
-            Accept::Random(_) => 1 + self.rng.usize(buf.len().min(64)),
+            Accept::Random(_) => 1 + self.rng.usize(buf.len().min(if self.script.vectored { 1500 } else { 64 })),
             Accept::OneThenAll(first) => {
                 if self.calls <= first {
                     1
@@ -124,6 +127,17 @@ impl Write for Sink {
     }
     fn flush(&mut self) -> io::Result<()> {
         Ok(())
+    }
+    fn write_vectored(&mut self, bufs: &[io::IoSlice<'_>]) -> io::Result<usize> {
+        if !self.script.vectored {
+            // the default behaviour of std: the first non-empty buffer
+            let buf = bufs.iter().find(|b| !b.is_empty()).map_or(&[][..], |b| &**b);
+            return self.write(buf);
+        }
+        // one logical write of the concatenation, limited by the script (a short count may end
+        // inside any of the buffers)
+        let all: Vec<u8> = bufs.iter().flat_map(|b| b.iter().copied()).collect();
+        self.write(&all)
     }
 }
 
@@ -303,7 +317,7 @@ fn run(ctx: &Ctx, rep: &Report) {
         let payload_start = walk_package(&canonical).map(|p| p.payload_start).unwrap_or(0);
         let mut local: BTreeMap<String, u64> = BTreeMap::new();
         let mut scripts: Vec<SinkScript> = Vec::new();
-        let plain = SinkScript { accept: Accept::All, fail_at: None, transient: false, zero_at: None, interrupt_every: None };
+        let plain = SinkScript { accept: Accept::All, fail_at: None, transient: false, zero_at: None, interrupt_every: None, vectored: false };
         // (1) hard failure at every offset (with full and with 1..7-byte acceptance)
         for k in 0..=canonical.len() {
             scripts.push(SinkScript { fail_at: Some(k), ..plain.clone() });
@@ -327,6 +341,14 @@ fn run(ctx: &Ctx, rep: &Report) {
         for n in [1usize, 2, 3, 4, 5, 8, 13, 40, 100] {
             scripts.push(SinkScript { accept: Accept::OneThenAll(n), ..plain.clone() });
         }
+        // (2b) sinks with their own write_vectored and a per-call limit
+        for k in [1usize, 3, 7, 16, 17, 48, 49, 64, 100, 128, 500, 1000, 1024, 4096] {
+            scripts.push(SinkScript { accept: Accept::Max(k), vectored: true, ..plain.clone() });
+        }
+        for s in 0..40u64 {
+            scripts.push(SinkScript { accept: Accept::Random(ctx.seed ^ 0x77 ^ (s << 9) ^ pi), vectored: true, ..plain.clone() });
+        }
+        scripts.push(SinkScript { vectored: true, ..plain.clone() });
         // (3) interrupts
         for j in [1usize, 2, 3, 5, 17] {
             scripts.push(SinkScript { interrupt_every: Some(j), ..plain.clone() });
